@@ -27,7 +27,8 @@ VARIABLES proto,         \* "tls12" | "tls13" | "quic"
           upper, crlf,   \* hex case, line ends
           dupOf,         \* 0 or a label whose line is repeated at the end
           split,         \* lines 1..split go to source A, the rest to source B
-          srcA, srcB     \* where a source is delivered: "file" | "dsb0" (before the packets) | "dsb1" (between handshake and data) | "dsb2" (after everything)
+          srcA, srcB     \* where a source is delivered: "file" | "dsbpre" (before the interface description block) | "dsb0" (before the
+                         \* packets) | "dsb1" (between handshake and data) | "dsb2" (after everything)
 vars == <<proto, perm, decor, upper, crlf, dupOf, split, srcA, srcB>>
 
 Perms == { p \in [1..NLines -> Lines] : \A i, j \in 1..NLines : i # j => p[i] # p[j] }
@@ -45,7 +46,7 @@ Accepted(line) == line.kind \in {"valid", "otherlabel", "othercr"}
 \* which accepted lines a connection uses: those with its client random and a label it knows
 Usable(line) == line.kind = "valid"
 
-Order(src) == CASE src = "file" -> 0 [] src = "dsb0" -> 1 [] src = "dsb1" -> 2 [] src = "dsb2" -> 3
+Order(src) == CASE src = "file" -> 0 [] src = "dsbpre" -> 1 [] src = "dsb0" -> 1 [] src = "dsb1" -> 2 [] src = "dsb2" -> 3
 \* the keylog list at a given moment = file (if any) then the DSBs read so far, in file order
 Cut == IF split > Len(WithDecor) THEN Len(WithDecor) ELSE split
 A == SubSeq(WithDecor, 1, Cut)
@@ -62,7 +63,7 @@ Effective(l) == LET m == SelectSeq(ListAt(LookupMoment), LAMBDA x : Usable(x) /\
 
 Init == /\ proto \in {"tls12", "tls13", "quic"} /\ perm \in Perms /\ decor \in SUBSET {"comment", "blank", "otherlabel", "othercr"}
         /\ upper \in BOOLEAN /\ crlf \in BOOLEAN /\ dupOf \in 0..NLines
-        /\ split \in 0..(NLines + 1) /\ srcA \in {"file", "dsb0", "dsb1", "dsb2"} /\ srcB \in {"dsb0", "dsb1", "dsb2"}
+        /\ split \in 0..(NLines + 1) /\ srcA \in {"file", "dsbpre", "dsb0", "dsb1", "dsb2"} /\ srcB \in {"dsb0", "dsb1", "dsb2"}
         /\ (proto = "quic" => Order(srcA) <= 1 /\ Order(srcB) <= 1)       \* QUIC: the secrets must precede the packets (as the property says)
 Next == UNCHANGED vars
 Spec == Init /\ [][Next]_vars
